@@ -270,47 +270,82 @@ def run(F, tier, res):
         res.anchor_missing('OutputType::try_pager / _make_process_from_less_path')
     else:
         q = tp[0]
-        nargs = F.bodies[q]['mir']['arg_count']
-        names = {n_[0]: n_[1]['l'] for n_ in F.bodies[q]['mir']['names'] if not n_[1]['p']}
-        ors = [(i, c) for i, c in F.calls(q) if callee_of(c).endswith('Option::<T>::or')]
-        npg += 1
-        good = False
-        for (i, c) in ors:
-            a0 = F.trace(q, c['args'][0])
-            a1 = F.trace(q, c['args'][1], deep=True)
-            cfg_first = any(r[0] == 'param' and r[1] == names.get('pager_from_config', 3) and not r[2] for r in a0)
-            env_second = any(r[0] == 'param' and r[2] and 'pagers' in r[2] for r in a1)
-            if cfg_first and env_second:
-                good = True
-        if good:
-            okpg += 1
-        else:
-            res.violate('PAGER', 'fn=%s;priority' % q, 'the pager command is not chosen as config (--pager / delta.pager) first, then environment', where=F.bodies[q]['mir']['span']['at'])
-        # default less
-        npg += 1
-        clos = [cc for cc in F.fn_bodies if cc.startswith(q + '::{closure')]
-        if any(('str', 'less') in [v for blk in F.blocks(cc) for st in blk['s'] if st[0] == 'assign' for k in [st[2]] for v in (F.operand_literals(cc, k[1]) if k[0] == 'use' else [])] or
-               any(('str', 'less') in F.operand_literals(cc, a) for _, c2 in F.calls(cc) for a in c2['args']) for cc in clos):
-            okpg += 1
-        else:
-            res.violate('PAGER', 'fn=%s;default' % q, 'the fallback pager is not `less`', where=F.bodies[q]['mir']['span']['at'])
-        # DELTA_PAGER before PAGER: the test of tuple field .0 dominates the test of field .1
-        npg += 1
-        sw0 = sw1 = None
-        for (sb, op, arms, other) in Ru.switches(F, q):
-            pl = op.get('copy') or op.get('move')
-            for (dbb, kind, payload) in (F.local_defs(q).get(pl['l'], []) if pl and not pl['p'] else []):
-                if kind == 'assign' and payload[0] == 'discr':
-                    prj = [pr for pr in payload[1]['p'] if pr[0] == 'field']
-                    if prj and prj[0][2] == '(tuple)':
-                        if prj[0][3] == '0':
-                            sw0 = sb
-                        elif prj[0][3] == '1':
-                            sw1 = sb
-        if sw0 is not None and sw1 is not None and sw0 in F.dominators(q)[sw1] and sw1 not in F.dominators(q)[sw0]:
-            okpg += 1
-        else:
-            res.violate('PAGER', 'fn=%s;env-order' % q, 'DELTA_PAGER is not consulted before PAGER/BAT_PAGER', where=F.bodies[q]['mir']['span']['at'])
+        # SELECT: the pager command is chosen by priority config > DELTA_PAGER > PAGER/BAT_PAGER > `less`. Decided by evaluating
+        # try_pager abstractly over the eight combinations of present / absent sources and observing which source's value reaches
+        # the command-line splitter (any way of writing the selection - or/unwrap_or_else chain, tuple match, if-let ladder - is fine)
+        from .. import e1 as _e1
+
+        class _PagerProbe(_e1.Machine):
+            def __init__(self, F_):
+                super().__init__(F_)
+                self.seen = []
+
+            def call_outcomes(self, path, c, callee, full, argv, g, memo):
+                a0 = argv[0] if argv else _e1.T0
+                if callee.endswith('shell_words::split') or 'shell_words::split' in full:
+                    x = self.deref_all(a0, g) if a0[0] in ('ref', 'vref') else a0
+                    self.seen.append(frozenset(_e1.prov_of(x)))
+                    return [(_e1.ENUM(_e1.RES, 0, [_e1.T0]), g, memo)]
+                if callee.endswith('::clone') and a0[0] == 'vref' and a0[1][0] in ('tuple', 'enum'):
+                    return [(a0[1], g, memo)]
+                if (callee.endswith(('::from', '::to_string', '::to_owned', '::into', 'String::from'))) and a0[0] == 'str':
+                    return [(_e1.TOP({'lit:' + a0[1]}), g, memo)]
+                return super().call_outcomes(path, c, callee, full, argv, g, memo)
+        mirq = F.bodies[q]['mir']
+        names = {n_[0]: n_[1]['l'] for n_ in mirq['names'] if not n_[1]['p'] and n_[1]['l'] <= mirq['arg_count']}     # parameters only
+        pagers_idx = None
+        for blk in mirq['blocks']:
+            for st in blk['s']:
+                if st[0] == 'assign':
+                    for x in [st[1]] + [y for y in st[2][1:] if isinstance(y, dict)]:
+                        pl = x if 'l' in x else (x.get('copy') or x.get('move'))
+                        if pl and pl.get('p'):
+                            for pr in pl['p']:
+                                if pr[0] == 'field' and pr[3] == 'pagers':
+                                    pagers_idx = pr[1]
+        env_l, cfg_l = names.get('env'), names.get('pager_from_config')
+        cases = []
+        undecided = pagers_idx is None or env_l is None or cfg_l is None
+        if not undecided:
+            for has_cfg in (True, False):
+                for has_dp in (True, False):
+                    for has_p in (True, False):
+                        m = _PagerProbe(F)
+                        m.RELEVANT = set(m.RELEVANT) | {q} | {cc for cc in F.fn_bodies if cc.startswith(q + '::{closure')}
+                        m.stack.append('<probe>')
+                        opt = lambda on, tag: _e1.ENUM(_e1.OPT, 1, [_e1.TOP({tag})]) if on else _e1.ENUM(_e1.OPT, 0, [])
+                        pagers = ('tuple', (opt(has_dp, 'DELTA_PAGER'), opt(has_p, 'PAGER')))
+                        envv = ('tuple', tuple(pagers if k == pagers_idx else _e1.T0 for k in range(pagers_idx + 1)))
+                        argv = []
+                        for k in range(1, mirq['arg_count'] + 1):
+                            if k == env_l:
+                                argv.append(_e1.VREF(envv))
+                            elif k == cfg_l:
+                                argv.append(opt(has_cfg, 'CONFIG'))
+                            else:
+                                argv.append(_e1.T0)
+                        try:
+                            m.call_fn(q, argv, m.g0(), ())
+                        except Exception:
+                            undecided = True
+                        want = 'CONFIG' if has_cfg else ('DELTA_PAGER' if has_dp else ('PAGER' if has_p else 'lit:less'))
+                        cases.append(((has_cfg, has_dp, has_p), want, m.seen))
+        for (key, want, seen) in cases:
+            npg += 1
+            flat = set().union(*seen) if seen else set()
+            flat = {t for t in flat if t in ('CONFIG', 'DELTA_PAGER', 'PAGER') or t.startswith('lit:')}
+            if flat == {want}:
+                okpg += 1
+            elif not seen or not flat:
+                undecided = True
+            else:
+                res.violate('PAGER', 'fn=%s;select;config=%s,DELTA_PAGER=%s,PAGER=%s' % ((q,) + key),
+                            'with (pager option %s, DELTA_PAGER %s, PAGER %s) the pager command comes from %s; the documented priority gives %s' % (
+                                'set' if key[0] else 'unset', 'set' if key[1] else 'unset', 'set' if key[2] else 'unset', sorted(flat), want),
+                            where=F.bodies[q]['mir']['span']['at'])
+        if undecided:
+            res.violate('PAGER', 'fn=%s;select;undecided' % q, 'cannot evaluate the pager selection over its source combinations (shape not understood): the priority order is not decided',
+                        where=F.bodies[q]['mir']['span']['at'])
         # RAW-CONTROL-CHARS
         q2 = mk[0]
         npg += 1
@@ -353,6 +388,6 @@ def run(F, tier, res):
         else:
             res.violate('PAGER', 'fn=%s;raw-control-chars' % q2, 'less can be started without --RAW-CONTROL-CHARS although its arguments are delta\'s to choose (colours would show as escape codes)',
                         where=F.bodies[q2]['mir']['span']['at'])
-    res.rule('C18.PAGER', npg, 4, 'pager selection obligations: config before env, DELTA_PAGER before PAGER, default less, --RAW-CONTROL-CHARS when args are ours', discharged=okpg)
+    res.rule('C18.PAGER', npg, 9, 'pager selection obligations: config before env, DELTA_PAGER before PAGER, default less, --RAW-CONTROL-CHARS when args are ours', discharged=okpg)
     res.distinct.update(r['rule'] for r in res.rules)
     return res
